@@ -448,7 +448,7 @@ def main(ctx):
         ctx.exhaustive = not quick
     nR = len(events)
     ctx.replayed += nR
-    for i in range(1500 if quick else 40000):
+    for i in range(2400 if quick else 40000):
         cs = gen_quilt_case(rng)
         res = run_quilt(cs, rng, workdir if rng.random() < 0.25 else None)
         events.append({'kind': 'quilt', 'cs': cs, 'res': res, 'leg': 'V'})
